@@ -17,6 +17,8 @@ with the model on them.
 -/
 import PpciVerif.Spec.CExpr
 import PpciVerif.Model.CType
+import PpciVerif.Spec.CLayout
+import PpciVerif.Model.CLayout
 
 namespace Model.CBridge
 open Spec.CInt (Base Suffix UnOp BinOp)
@@ -60,5 +62,23 @@ def toSrc : Spec.CExpr.Expr → Model.CType.Src
   | .bin op a b => .bin (binSym op) (toSrc a) (toSrc b)
   | .cond c a b => .tern (toSrc c) (toSrc a) (toSrc b)
   | .cast τ a => .cast (M τ) (toSrc a)
+
+/-! ### object types -/
+
+/-- the psABI scalar class of a basic type (signedness is irrelevant for layout) -/
+def primS : Model.CLayout.Prim → Spec.CLayout.Prim
+  | .char | .uchar => .char | .short | .ushort => .short | .int | .uint => .int
+  | .long | .ulong => .long | .llong | .ullong => .llong | .float => .float | .double => .double | .ptr => .ptr
+
+mutual
+  def ltyS : Model.CLayout.LTy → Spec.CLayout.LTy
+    | .prim p => .prim (primS p)
+    | .arr e n => .arr (ltyS e) n
+    | .struct fs => .struct (fieldsS fs)
+    | .union fs => .union (fieldsS fs)
+  def fieldsS : Model.CLayout.Fields → Spec.CLayout.Fields
+    | .nil => .nil
+    | .cons t r => .cons (ltyS t) (fieldsS r)
+end
 
 end Model.CBridge
